@@ -17,6 +17,8 @@ import random
 from .. import gen, harness, oracles
 from ..world import SimWorld
 
+EVAL_COUNTER = "cli_invocations"
+EVAL_UNIT = "one in-process `semantiva run` invocation (one case)"
 LEVEL = "exploration"
 RULE = ("per seeded base pipeline, ~6 cases sampled from: valid run; valid + {--validate, --dry-run, --run-space-dry-run}; invalid "
         "config {unknown processor, unknown parameter, type mismatch, probe without context_key, key deleted then required, --set "
@@ -416,10 +418,13 @@ def execute(sc: dict, seed: int) -> dict:
     bd = _digest({"n": sc["base"]["nodes"], "c": sc["base"]["context"]})
     try:
         for i, c in enumerate(sc["cases"]):
+            before = stats.get("cli_invocations", 0)
             vs = run_case(sc, c, w, stats, i)
             for v in vs:
                 v["case"] = c
             viols.extend(vs)
+            if stats.get("cli_invocations", 0) == before:
+                continue          # the mutation was not applicable to this base pipeline: nothing was executed
             nontrivial.append(f"{bd}/{c['kind']}/{c.get('how', '')}/{','.join(c.get('flags', []))}")
         seen, uniq = set(), []
         for v in viols:
